@@ -244,6 +244,9 @@ func cmdCheck(args []string) int {
 		if u.OnlyThorough && tier != "thorough" {
 			continue
 		}
+		if f := os.Getenv("GOSYM_UNITS"); f != "" && !strings.Contains(u.Name, f) {
+			continue // development only: a partial run (its evidence goes to a scratch directory)
+		}
 		params := u.Quick
 		timeout := 10 * time.Second
 		if tier == "thorough" {
